@@ -42,7 +42,8 @@ def generate(ctx):
             if as_ == "scores":
                 vals = [(-int(v) if isinstance(v, bool) else -v) for v in vals]
             plain, tags = gen.tag_vals(vals)
-            encs.append([as_, plain, st2, tags])
+            # the OTHER selector is left out, or spelled out as "not given" (None or an empty list): the same call
+            encs.append([as_, plain, st2, tags, ctx.rng.choice(["absent", "absent", "none", "empty", "empty"])])
         if lv == list(range(len(lv))):
             encs.append([None, None, "omitted", None])
         yield "enc", dict(case=case, meta=meta, encs=encs)
@@ -70,10 +71,16 @@ def probe_enc(ctx, payload):
         return
     common_buckets(ctx, base, meta)
     has_tie = meta["ties"] != "none"
-    for as_, vals, style, tags in payload["encs"]:
+    for enc in payload["encs"]:
+        as_, vals, style, tags = enc[:4]
+        other = enc[4] if len(enc) > 4 else "absent"
         c2 = dict(case)
         c2["sel"], c2["vals"] = as_, vals
         c2["vals_tags"] = tags
+        if as_ in ("ranks", "scores") and other != "absent":
+            c2["call"] = dict(case.get("call") or {}, **{("scores" if as_ == "ranks" else "ranks"): (None if other == "none" else [])})
+            ctx.ev("other-selector-spelled-not-given")
+            style = f"{style}+other={other}"
         r2 = run_case(c2)
         has_float = bool(vals) and any(isinstance(v, float) for v in vals)
         reg = f"{meta['ties']}/{style}/{as_}"
